@@ -31,7 +31,7 @@ class Ctx:
 def diff_cases(ctx, cases, timeout=900, model=True, label='main'):
     """Run implementation and model on case lines; returns list of (index, impl_out, model_out) that differ."""
     lines = [c[0] if isinstance(c, tuple) else c for c in cases]
-    impl_out = vlib.run_robust(vlib.impl_cmd(ctx.impl), lines, timeout=timeout, died='CRASH')
+    impl_out = vlib.run_robust(getattr(ctx, 'impl_cmd', None) or vlib.impl_cmd(ctx.impl), lines, timeout=timeout, died='CRASH')
     # tokens starting with '#' are observations (regime tags), not results: collect and strip
     def clean(o):
         if o and '#' in o:
